@@ -153,6 +153,7 @@ def run_path(con: Contract, case, prefix, worklist, report: FunctionReport, plan
     I.current_target = con.qualname
     qn = con.qualname
     try:
+        ctx.ghost["__case__"] = label or ""
         bindings, kwargs, self_obj = build_entry(I, con, node, case_types)
         if con.setup is not None:
             con.setup(I, bindings)
